@@ -135,6 +135,15 @@ def single_edits(schema, rng, per_rule_cap=6):
                         lambda l, s, fi=fi: setattr(l.fields[fi], "offset", 0))
                 add("offset-at-minimum", "field@" + where, False, "level", li,
                     lambda l, s, fi=fi, v=cur: (setattr(l.fields[fi], "offset", v) if l.fields[fi].offset is None else None))
+            # an offset so large that offset + size wraps in 64 bits: the field lies outside any block, the running offset
+            # must not wrap to a small value (added after a sub-agent pointed at the unchecked addition)
+            fs = m.field_size(f)
+            if fs > 0 and f.offset is None:
+                add("offset-wraps-64bit", "field-end-at-2^64@" + where, True, "level", li,
+                    lambda l, s, fi=fi, v=2 ** 64 - fs: setattr(l.fields[fi], "offset", v))
+                if fs > 1:
+                    add("offset-wraps-64bit", "field-end-beyond-2^64@" + where, True, "level", li,
+                        lambda l, s, fi=fi, v=2 ** 64 - 1: setattr(l.fields[fi], "offset", v))
             cur = off + m.field_size(f)
         # block length
         if minbl > 0:
@@ -206,6 +215,10 @@ def single_edits(schema, rng, per_rule_cap=6):
                         lambda c_, s, ei=ei: setattr(c_.elements[ei], "offset", 0))
                 add("offset-at-minimum", "element@" + where, False, "composite", ci,
                     lambda c_, s, ei=ei, v=cur: (setattr(c_.elements[ei], "offset", v) if c_.elements[ei].offset is None else None))
+            es = m.enc_size(e)
+            if es > 0 and getattr(e, "offset", None) is None and not is_hdr:
+                add("offset-wraps-64bit", "element-end-at-2^64@" + where, True, "composite", ci,
+                    lambda c_, s, ei=ei, v=2 ** 64 - es: setattr(c_.elements[ei], "offset", v))
             cur = off + m.enc_size(e)
         if len(c.elements) >= 2:
             add("duplicate-name", "element@" + where, True, "composite", ci,
@@ -246,6 +259,21 @@ def single_edits(schema, rng, per_rule_cap=6):
             else:
                 add("malformed-level-header", "varData-length-1@%s" % role, True, "composite", ci,
                     lambda c_, s: setattr(c_.element("varData"), "length", 1 if c_.element("varData").kind == "type" else None))
+
+    # ------------------------------------------------------------ valueRef into a char enum whose encodingType is a named type
+    def _char_enum_via_type(t_, s, as_field):
+        s.types.append(S.Type("VrCharT_", "char"))
+        s.types.append(S.Enum("VrCharE_", "VrCharT_", [S.EnumValue("A", "A"), S.EnumValue("Z", "z")]))
+        if as_field:
+            s.messages[0].fields.append(S.Field("vrk_", 64001, "char", presence="constant", value_ref="VrCharE_.Z"))
+        else:
+            s.types.append(S.Type("VrCharK_", "char", presence="constant", value_ref="VrCharE_.A"))
+            s.messages[0].fields.append(S.Field("vrk_", 64001, "VrCharK_"))
+    if schema.messages and schema.types:
+        add("valueRef-char-enum-via-named-type", "constant-type", False, "pubtype", 0,
+            lambda t_, s: _char_enum_via_type(t_, s, False))
+        add("valueRef-char-enum-via-named-type", "constant-field", False, "pubtype", 0,
+            lambda t_, s: _char_enum_via_type(t_, s, True))
 
     # ------------------------------------------------------------ types: values out of range, arrays
     for ti, t in enumerate(all_types(schema)):
@@ -667,7 +695,9 @@ def mutate_xml(xml, rng, nmut=None):
         elif op == 10:
             inc = ET.Element("{http://www.w3.org/2001/XInclude}include")
             inc.set("href", rng.choice(["missing.xml", "inc_types.xml", "inc_self.xml", "inc_a.xml", "incdir", "", ".", "/", "schema.xml",
-                                        "inc_bad.xml", "/dev/null", "inc_msg.xml"]))
+                                        "inc_bad.xml", "/dev/null", "inc_msg.xml", "./inc_types.xml", "incdir/../inc_types.xml",
+                                        "inc_dot_self.xml", "./inc_dot_a.xml", "inc_slash_self.xml", "inc_up_c.xml",
+                                        "./schema.xml", "incdir/../schema.xml"]))
             e.insert(rng.randrange(len(e) + 1), inc)
             desc.append("include %s@%s" % (inc.get("href"), e.tag))
         else:
@@ -773,4 +803,12 @@ INCLUDE_FILES = {
     "inc_a.xml": '<?xml version="1.0"?>\n<r><include href="inc_b.xml"/></r>\n',
     "inc_b.xml": '<?xml version="1.0"?>\n<r><include href="inc_a.xml"/></r>\n',
     "inc_bad.xml": '<?xml version="1.0"?>\n<types><type name="IncT"',
+    # cycles whose hrefs are not in normal form (`./x`, `dir/../x`, `.//x`): the cycle check must compare what it opens
+    # (added after seeded change C09-4: hrefs normalised before opening, compared raw)
+    "inc_dot_self.xml": '<?xml version="1.0"?>\n<include href="./inc_dot_self.xml"/>\n',
+    "inc_dot_a.xml": '<?xml version="1.0"?>\n<r><include href="./inc_dot_b.xml"/></r>\n',
+    "inc_dot_b.xml": '<?xml version="1.0"?>\n<r><include href="incdir/../inc_dot_a.xml"/></r>\n',
+    "inc_slash_self.xml": '<?xml version="1.0"?>\n<include href=".//inc_slash_self.xml"/>\n',
+    "inc_up_c.xml": '<?xml version="1.0"?>\n<r><include href="incdir/.././inc_up_d.xml"/></r>\n',
+    "inc_up_d.xml": '<?xml version="1.0"?>\n<r><include href="./incdir/../inc_up_c.xml"/></r>\n',
 }
